@@ -117,6 +117,7 @@ pub fn main(args: &util::Args) {
             max_depth: 1 + i % 3,
             effects: true,
             wildcard_arrays: i % 10 == 8,
+            ..Default::default()
         };
         let (src, feats) = crate::progen::gen_program(&mut rng, cfg);
         let id = format!(
